@@ -100,8 +100,14 @@ def run(pid, tier):
     for d in (10, 16, 22, 28, 50, 100):
         deep += [b"@()@(" + b"(" * d + b"a" + b")" * d + b")", b"@()@a" + b"[" * d + b"1" + b"]" * d, b"@()@a" + b"{" * d + b"}" * d,
                   b"@()" + b"@if a {" * d + b"x" + b"}" * d, b"@()" + b"@if a {" * d + b"x" + b"}" * (d - 1), b"@()@(" + b"(" * d,
+                  b"@()@a" + b"[(" * (d // 2) + b"x" + b")]" * (d // 2), b"@()@a" + b"({[" * (d // 3) + b"x" + b"]})" * (d // 3), b"@()@a(" + b"[(" * (d // 2) + b"x" + b")]" * (d // 2 - 1),
                   b"@()" + b"@for a in b {" * d + b"}" * d, b"@()" + b"@:c({" * d + b"})" * d, b"@()@a" + b".a" * d, b"@(a: " + b"Vec<" * d + b"u8" + b">" * d + b")",
                   b"@(a: " + b"(" * d + b"u8" + b")" * d + b")x", b"@()@if " + b"!" * d + b"a {}", b"@()@if a" + b" && a" * d + b" {}"]
+    for mark in (4096, 8192):
+        for ch in ("é", "€", "𝄞"):
+            for back in range(1, len(ch.encode())):
+                cases.append(b"@()\n" + b"a" * (mark - back) + ch.encode() + b"tail")
+                cases.append(b"@(x: u8)\n@if true {" + b"a" * (mark - back) + ch.encode() + b"}")
     cases = list(dict.fromkeys(cases))
     named = [("t_html", s) for s in cases]
     impl, model = compile_pairs(named)
